@@ -232,8 +232,9 @@ func trunc(b []byte) string {
 	return string(b)
 }
 
+// universe: depth 2 in both tiers; the quick tier carries 8 element types to the second level, the thorough tier 24.
 func universe(depth int) []reflect.Type {
-	c := typeuniv.Cfg{Depth: depth, NoInvalid: true}
+	c := typeuniv.Cfg{Depth: 2, NoInvalid: true, MaxPerLevel: 16}
 	if depth >= 2 {
 		c.MaxPerLevel = 24
 	}
@@ -345,7 +346,7 @@ func Run(r *evid.Run) {
 		}
 	})
 	r.Sample(Case{Family: "universe", Type: typeuniv.Describe(ts[len(ts)/2]), Index: len(ts) / 2, Value: 1, OptSet: "default", Depth: depth})
-	r.Bound("type universe: %d types (depth %d) x their value domains x %d option sets", len(ts), depth, len(sets))
+	r.Bound("type universe: %d types (nesting depth 2; %d element types carried to the second level) x their value domains x %d option sets", len(ts), map[int]int{1: 16, 2: 24}[depth], len(sets))
 	formats(r)
 	wide(r)
 	float32RoundTrip(r)
